@@ -288,6 +288,33 @@ def rule_r5(facts, rep, rid="C06-R5"):
     rep.floor(rid, "kind-changing branches in the link printers", n, 2)
 
 
+def rule_r1b(facts, rep, rid="C06-R1b"):
+    """Title refresh is unconditional: between the title lookup and its fallback there is nothing but `map`."""
+    from .common import value_chain
+    sites = [("GraphInline::normalize", ("get_ref_title",)), ("GraphNodePointer as liwe::model::node::NodeIter>::node", ("get_ref_text", "get_key_title", "get_ref_title"))]
+    n = 0
+    for nm, lookups in sites:
+        f = facts.fn(nm)
+        rep.saw_fn(f)
+        c = ctx(f)
+        for x in fb.walk(f.body):
+            if x.get("k") == "mcall" and x["name"] in lookups:
+                n += 1
+                chain = value_chain(c, x)
+                names = [m["name"] for m in chain]
+                key = "%s|%s|refresh-is-unconditional" % (f.def_, x["name"])
+                bad = [m for m in chain if m["name"] not in ("map", "unwrap_or", "unwrap_or_else", "unwrap_or_default", "cloned", "clone", "to_string", "into")]
+                end = [m for m in chain if m["name"] in ("unwrap_or", "unwrap_or_else", "unwrap_or_default")]
+                if bad:
+                    rep.violation(rid, key, "the looked-up title passes `.%s(%s)` before it replaces the link text: the refresh is skipped for the titles that test rejects, so the link keeps a "
+                                  "stale text although its target has a heading" % (bad[0]["name"], fb.show(bad[0]["args"][0])[:70] if bad[0]["args"] else ""), loc(f, bad[0]))
+                elif not end:
+                    rep.violation(rid, key, "the title lookup has no fallback to the link's own text (chain: %s)" % names, loc(f, x))
+                else:
+                    rep.ok(rid, key, "lookup -> %s" % " -> ".join(names), loc(f, x))
+    rep.floor(rid, "title lookups", n, 2)
+
+
 def run(facts, rep, tier):
     rep.rule("C06-R1", "Kind->text table agreement across the three sites that choose a link's text (GraphInline::normalize, "
              "GraphNodePointer::node, Projector::project_node): Regular = title with fallback to the original, WikiLink = empty, "
@@ -298,6 +325,8 @@ def run(facts, rep, tier):
     rep.rule("C06-R3", "The title is the plain text of the target's first block iff it is a section, cached under the note's own key.")
     rep.rule("C06-R4", "= C05-R2: the title used is that of the note the link resolves to from the linking note's directory.")
     rule_r1(facts, rep)
+    rep.rule("C06-R1b", "The refresh is unconditional: at the sites that look a title up (get_ref_title / get_ref_text) the value flows through `map` only into `unwrap_or(<original text>)` - no filter / and_then in between.")
+    rule_r1b(facts, rep)
     rule_r2(facts, rep)
     rule_r3(facts, rep)
     c05.rule_r2(facts, rep, "C06-R4")
